@@ -242,6 +242,23 @@ CLAIMED["C13"] = dict(
     design="6/C13",
 )
 
+CLAIMED["C16"] = dict(
+    text="Lean theorem c16_verbatim (Props/C16.lean): for every print string written from text chunks and local references (class WF: any "
+         "characters but `$`, white space of the kinds the grammar knows, names as the grammar admits them, at least one character between "
+         "two references) and for every assignment of values to references, the modelled print (character-level transcription of the "
+         "Lark print grammar + transformer + the trailing-blank rule) sends exactly the chunks' text with each reference replaced by its "
+         "value, `..` printing one dot; wfB_sound makes the class decidable so the driver reports which generated strings the theorem "
+         "covers. c16_adjacent_fails proves that two references with nothing between them are outside what holds (known finding). Tie: "
+         "suite `print` compares PrintParser.transform/print() with the model on arbitrary data (unit) and on the data snapshotted at "
+         "every execution of real runs, and judges the real output against the demanded text computed from the file alone, including the "
+         "number of entries under onmatch/once.",
+    note="Lark's Earley parser + dynamic lexer are observed, not verified; the resolution of a reference against variables/headers/metadata/"
+         "runtime fields is a model function tied by correspondence, not part of the theorem (the theorem is parametric in it); which "
+         "executions happen under onmatch/once is judged by the oracle only (the interpreter model has no look-ahead).",
+    technique="Lean 4 proof (structural induction over chunks; scanner lemmas) + model/implementation correspondence + reference oracle",
+    design="6/C16",
+)
+
 NOT_YET = "check not built yet in this revision (planned: see DESIGN.md section 6); not claimed until its theorem and correspondence suite exist"
 
 
